@@ -197,6 +197,11 @@ def rule_input_ownership(ctx, chk, rule):
         else:
             chk.ok(rule, e.func.where(e.node), "`%s`: receiver `%s` -> %s" % (
                 e.op, src(e.recv_expr), "fresh objects only" if e.recv else "no container object"))
+    for g, call in getattr(pt, "unresolved", ()):
+        if g in scope:
+            ok = False
+            chk.undecided(rule, g.where(call), "`%s` hands (part of) the caller's description to a callable picked at run time that is not resolved: "
+                          "whether an alias of it is kept and later modified is not known" % src(call)[:80])
     if ok:
         chk.note("%s: %d in-place operations reachable from StochasticGame.__init__/solve, none on an input alias; "
                  "transient constructor stores: %s" % (rule, n, sorted(pt.transient_readers)))
